@@ -13,7 +13,7 @@ import ast
 from sa.model import AnalysisError
 from sa.ctx import Ctx, short, stmt_key
 from sa.cfg import NORMAL, describe_path
-from sa.report import Report
+from sa.report import Report, section
 from sa.sides import SideAnalysis, show
 from sa.util import cfg_root, node_has_call, has_fact, fact_in, local_assigned_from
 from sa import pat
@@ -293,15 +293,15 @@ class C05:
 
 def run(ctx: Ctx, rep: Report, tier: str):
     c = C05(ctx, rep)
-    c.run()
-    c.v10()
-    c.v11()
-    c.v12()
-    c.v14()
+    section(rep, c.run)
+    section(rep, c.v10)
+    section(rep, c.v11)
+    section(rep, c.v12)
+    section(rep, c.v14)
     from rules.common import hash_conflict_definition
     rep.rule("C05.V7", "the resolver is consulted when - and only when - both sides carry different unsynchronised content: hash_conflict() = both sides have "
              "hash and path and both hashes differ from their last-synced value", expect_min=1)
-    hash_conflict_definition(ctx, rep, "C05.V7")
+    section(rep, lambda: hash_conflict_definition(ctx, rep, "C05.V7"))
     from rules.common import alias as _alias
     from rules.C07 import C07 as _C07
     _alias(rep, ["C07.R4"], "C05.V13", "a file that is already in the way of a create is adopted silently only when its content is identical (same provider's hash of the bytes "
@@ -309,10 +309,10 @@ def run(ctx: Ctx, rep: Report, tier: str):
     from rules.common import split_contract
     rep.rule("C05.V15", "conflicts are split the same way every time: SyncState.split moves the LOCAL half to a new entry and keeps the REMOTE half on the original "
              "(so 'remote wins, local gets out of the way' means something), clears the moved half, marks both changed, resets both last-synced paths", 7)
-    split_contract(ctx, rep, "C05.V15")
+    section(rep, lambda: split_contract(ctx, rep, "C05.V15"))
     _alias(rep, ["C07.R6"], "C05.V16", "the handle a resolver reads is a complete download (C07.R6 for ResolveFile.download): a failed download leaves nothing under the final "
            "temp name that a later attempt would present as the side's content", 2, lambda: _C07(ctx, rep).r6())
     from rules.common import resolution_bookkeeping
     rep.rule("C05.V17", "the resolver's verdict is booked: keep -> loser entry CONFLICT with its winner-side half cleared, winner marked unsynced; not keep -> winner half grafted "
              "onto the loser's entry, the emptied entry discarded, all four sync markers set", 10)
-    resolution_bookkeeping(ctx, rep, "C05.V17")
+    section(rep, lambda: resolution_bookkeeping(ctx, rep, "C05.V17"))
